@@ -117,8 +117,11 @@ def run(ctx):
     n = 40 if ctx.tier == "quick" else 1000
     for k_ in range(n):
         tr = P.gen_truth(ctx.rng)
-        if k_ % 2:
+        if k_ % 4 == 1:
             tr.add_gap(ctx.rng)          # a logger outage inside a dry spell: two gap-free stretches, still pieces of the truth
+        elif k_ % 4 == 3:
+            tr.add_fine_gap(ctx.rng)     # the same with a logger faster than the rain gauge, the outage off the rain lattice
+            ctx.count("truths_with_a_fast_logger_and_an_outage_off_the_rain_lattice", 1 if tr.fine > 1 else 0)
         one(ctx, tr, ctx.rng.choice([1.0, 0.5, 2.0, 2.5]))
     for _ in range(2 if ctx.tier == "quick" else 30):
         # tens of intervals in each curve
@@ -133,7 +136,7 @@ def run(ctx):
 
 def replay(ctx, doc):
     d = doc["input"]["truth"]
-    tr = P.Truth(d["dt"], d["t0"], d["sy"], d["Z"], d["rain"], d["level"], d["et"], d["events"], d["s"], d["j"])
+    tr = P.Truth.from_description(d)
     before = len(ctx.violations) + len(ctx.known_hits)
     one(ctx, tr, doc["input"]["zeta_step"])
     return len(ctx.violations) + len(ctx.known_hits) == before
